@@ -156,6 +156,36 @@ def measurement_obligations(S, spec, T2, outcome, xp, q, det, tag=""):
     return measure_rows_obligations(S, spec["n"], old_s, new_d, new_s, q, outcome, det, xp=xp, tag=tag)
 
 
+def outcome_consistent_restriction(S, n, q, det, old_d, old_s, new_d, new_s, drop, tag):
+    """Elements g of the old group with Z on q commute with the measurement; after it Z_q = (-1)^o, so g with its
+    q-factor removed must be in the new group with sign g.sign XOR o -- for ONE outcome o that is (i) the forced value
+    when the outcome is random and determinism is 0/1, (ii) the sign of +-Z_q in the old group when it is determined.
+    `drop(row)` maps an old-group element to the new register layout (qubit removed or kept with identity)."""
+    zq = O.Row.single(n, q, "Z")
+    anti = [O.sp(g, zq) for g in old_s]
+    random_case = b_or(*[O.eq_bits(a, 1) for a in anti])
+    alts = []
+    for o in (0, 1):
+        conds = []
+        if det in (0, 1):
+            conds.append(b_implies(random_case, o == det))
+        conds.append(b_implies(b_not(random_case), O.member_with_destabs(O.Row.single(n, q, "Z", sign=o), old_s, old_d)))
+        for coeffs in itertools.product((0, 1), repeat=n):
+            if not any(coeffs):
+                continue
+            g = O.Row.identity(n)
+            for c, srow in zip(coeffs, old_s):
+                if c:
+                    g = O.mul(g, srow)
+            z_on_q = b_and(O.eq_bits(g.x[q], 0), O.eq_bits(g.z[q], 1))
+            r = g.copy()
+            r.z[q] = 0
+            r.hi = r.hi ^ o
+            conds.append(b_implies(z_on_q, O.member_with_destabs(drop(r), new_s, new_d)))
+        alts.append(b_and(*conds))
+    S.prove(tag, b_or(*alts))
+
+
 class MeasureZ(Harness):
     """clifford.z_measurement_gate from an arbitrary Inv tableau"""
 
@@ -249,24 +279,10 @@ class Reset(Harness):
             trivial_on_q = b_and(O.eq_bits(g.x[q], 0), O.eq_bits(g.z[q], 0))
             S.prove(f"old-element-trivial-on-q-kept[{''.join(map(str, coeffs))}]",
                     b_implies(trivial_on_q, O.member_with_destabs(g, new_s, new_d)))
-        # elements with Z on q (commute with the measurement): after reset to Z-eigenstate |intended>, g * (+-Z_q) kept
-        # (for X/Y resets the final H / P H rotates only qubit q, so the statement about the *other* qubits is the
-        # same: g restricted away from q, with sign fixed by the measurement outcome, is in the group; the outcome is
-        # not observable here, so we assert existence of either sign)
-        for coeffs in itertools.product((0, 1), repeat=n):
-            if not any(coeffs):
-                continue
-            g = O.Row.identity(n)
-            for c, s in zip(coeffs, old_s):
-                if c:
-                    g = O.mul(g, s)
-            z_on_q = b_and(O.eq_bits(g.x[q], 0), O.eq_bits(g.z[q], 1))
-            rest = g.copy()
-            rest.z[q] = 0
-            neg = rest.copy()
-            neg.hi = 1 ^ neg.hi
-            S.prove(f"old-element-Z-on-q-restricted-kept-up-to-sign[{''.join(map(str, coeffs))}]",
-                    b_implies(z_on_q, b_or(O.member_with_destabs(rest, new_s, new_d), O.member_with_destabs(neg, new_s, new_d))))
+        # elements with Z on q commute with the measurement: their restriction away from q is kept with the sign fixed by
+        # the measurement outcome (one consistent outcome for all elements; forced value when random and determinism 0/1)
+        outcome_consistent_restriction(S, n, q, self.det, old_d, old_s, new_d, new_s, lambda r: r,
+                                       "old-elements-with-Z-on-q-restricted-with-outcome-sign")
 
 
 class Insert(Harness):
@@ -362,12 +378,8 @@ class Remove(Harness):
             trivial = b_and(O.eq_bits(g.x[q], 0), O.eq_bits(g.z[q], 0))
             S.prove(f"element-trivial-on-q-kept[{''.join(map(str, coeffs))}]",
                     b_implies(trivial, O.member_with_destabs(_drop(g, q), new_s, new_d)))
-            z_on_q = b_and(O.eq_bits(g.x[q], 0), O.eq_bits(g.z[q], 1))
-            r = _drop(g, q)
-            neg = r.copy()
-            neg.hi = 1 ^ neg.hi
-            S.prove(f"element-Z-on-q-kept-up-to-sign[{''.join(map(str, coeffs))}]",
-                    b_implies(z_on_q, b_or(O.member_with_destabs(r, new_s, new_d), O.member_with_destabs(neg, new_s, new_d))))
+        outcome_consistent_restriction(S, n, q, self.det, old_d, old_s, new_d, new_s, lambda r: _drop(r, q),
+                                       "elements-with-Z-on-q-restricted-with-outcome-sign")
 
 
 class Tensor(Harness):
